@@ -48,7 +48,9 @@ def serialize(ev, xhtml):
 
 
 SPECIAL = ["\0", "a\0b", "<b>\0</b>", "<div>\n\0\n</div>", "![a\0b](u)", "[a](u \"t\0\")", "```i\0\nc\n```", "    \0<x>", "`\0`", "\n\na", "a\n\n\n\nb", "- a\n\n\n- b", "> \n> a",
-           "a  \nb\\\nc", "***\n---\n___", "<br>\n<hr/>", "![i](u)\n![j](v 't')", "1. a\n\n   b\n", "#\n##\n###"]
+           "a  \nb\\\nc", "***\n---\n___", "<br>\n<hr/>", "![i](u)\n![j](v 't')", "1. a\n\n   b\n", "#\n##\n###",
+           # many childless containers before real content (a renderer that counts nesting must count back down)
+           "#\n" * 1100 + "\ntail *x*", "[](/u)" * 1050 + " tail", "-\n" * 1030 + "\nafter", ">\n\n" * 1010 + "end", "![](/u) " * 1040 + "z", "<br>" * 1100 + "\n\nend"]
 
 
 def big(rng, size):
@@ -78,7 +80,7 @@ def cases(rng, tier, Case):
         cfg = rng.choice(["CsW", "CsWS", "CsW", mdgen.gen_cfg(rng)])
         if rng.random() < 0.3:
             cfg = cfg.replace("f", "F")
-        res.append(Case("parse %s 100 RE %s" % (cfg, hx(d)), "gen", {"src": hx(d), "cfg": cfg}, compare=len(d) < 6000))
+        res.append(Case("parse %s 100 RE %s" % (cfg, hx(d)), "gen", {"src": hx(d), "cfg": cfg}, compare=len(d) < 6000 and d.count("\n") < 300 and d.count("](") < 300))
     return res
 
 
